@@ -231,8 +231,8 @@ CONTAINERS = [("path", "path_parameters"), ("header", "headers"), ("cookie", "co
 class Judge:
     """implementation-level property replay for one document"""
 
-    def __init__(self, chk, world: World, spec_documented):
-        self.chk, self.world = chk, world
+    def __init__(self, chk, world: World, spec_documented, variants):
+        self.chk, self.world, self.variants = chk, world, variants
         self.spec_documented = spec_documented
         self.judge_reqs = []   # (kind, payload) to be sent to the Lean specification in one batch
         self.pending = []
@@ -389,12 +389,12 @@ class Judge:
                 sig = KF_SUSPEND
             elif a[0] == "pm" and is_ref_item:
                 sig = KF_SCOPE_PM
+            elif a[0] == "id" and self.has_broken_item and self.variants.get("populate") == "asFound":
+                sig = KF_POPULATE   # every get_operation_by_id fails or misses on such a document
             elif a[0] == "id" and is_ref_item:
                 sig = KF_SCOPE_ID
             elif a[0] == "ref" and is_ref_item:
                 sig = KF_REF_ITEM
-            elif a[0] == "id" and self.has_broken_item:
-                sig = KF_POPULATE
             else:
                 sig = f"C08:{route}:differs-from-iteration"
             label = f"{key[1].upper()} {key[0]}"
@@ -597,7 +597,7 @@ def check_documents(chk, td, docs, mechanism, seq_budget, variants, small=False,
         if "__err__" in m:
             raise InfraError(f"C08 model error {m} on {json.dumps(G.wire(w.doc))[:2000]}")
         spec_documented = m["documented"]
-        j = Judge(chk, w, spec_documented)
+        j = Judge(chk, w, spec_documented, variants)
         judges.append(j)
         fresh_items, _, fresh_extras = w.run([["iterate"]])[0]
         fresh_schemas = fresh_extras.get("schemas", {})
@@ -609,7 +609,8 @@ def check_documents(chk, td, docs, mechanism, seq_budget, variants, small=False,
                 fresh[tuple(it_["err"])] = it_
         for f in ("multi" if w.multi else "single", f"paths={len(w.doc['paths'])}",
                   "ref-item" if any("ref" in pe for _, pe in w.doc["paths"]) else "inline-items",
-                  "wf" if m["wf"] else "not-wf"):
+                  "wf" if m["wf"] else "not-wf", "unique-ids" if m["uniqueIds"] else "duplicate-ids",
+                  "populate-ok" if m["populateOk"] else "populate-aborts"):
             chk.feature(f"{mechanism}:{f}")
         for accesses, mrun in zip(runs, m["runs"]):
             impl = w.run(accesses)
@@ -694,8 +695,33 @@ def yaml_json(chk, td, n):
                           "the same document offers different operations as JSON and as YAML", {"yaml": text, "json": raw})
 
 
+def check_tables(chk):
+    """constants the model hard-codes, read from the source tree on every run"""
+    import ast
+
+    from schemathesis.specs.openapi import references, schemas
+    t = chk.driver().one("tables", {})
+    impl_methods = sorted(schemas.HTTP_METHODS)
+    chk.case("tables", key="HTTP_METHODS", nontrivial=True, sample={"HTTP_METHODS": impl_methods})
+    if sorted(t["httpMethods"]) != impl_methods:
+        chk.disagreement("tables:HTTP_METHODS", "HTTP_METHODS", sorted(t["httpMethods"]), impl_methods)
+    src = ast.parse(open(schemas.__file__, encoding="utf-8").read())
+    levels = {}
+    for node in ast.walk(src):
+        if isinstance(node, ast.FunctionDef) and node.name in ("_resolve_shared_parameters", "_resolve_operation"):
+            for call in ast.walk(node):
+                if isinstance(call, ast.Call) and getattr(call.func, "attr", "") == "resolve_all" and len(call.args) == 2:
+                    levels[node.name] = eval(compile(ast.Expression(call.args[1]), "<level>", "eval"),  # noqa: S307
+                                             {"RECURSION_DEPTH_LIMIT": references.RECURSION_DEPTH_LIMIT})
+    hops = {k: references.RECURSION_DEPTH_LIMIT - v for k, v in levels.items()}
+    chk.case("tables", key="hops", nontrivial=True, sample={"hops": hops})
+    if set(hops.values()) != {t["hops"]} or len(hops) != 2:
+        chk.disagreement("tables:reference-hops", "RECURSION_DEPTH_LIMIT - start level", t["hops"], hops)
+
+
 def run(chk):
     rng = chk.rng
+    check_tables(chk)
     chk.assumptions += [
         "urljoin + file loading behave as the finite table `links` of the model says (computed by the harness with "
         "urllib.parse.urljoin over the fixture layout)",
@@ -705,6 +731,37 @@ def run(chk):
         "PyYAML implements YAML 1.1 scalar resolution as documented (JSON-vs-YAML clause)",
     ]
     chk.trusted += ["harness/gens/c08_docs.py (realisation of abstract documents, independent reference resolver)"]
+    chk.proved += [
+        "C08_effective / C08_effective_conforms / C08_override_wins / C08_operation_level_kept / C08_path_level_kept_iff: "
+        "the repaired merge offers exactly the effective parameters (operation-level ones, then the path-level ones not "
+        "overridden on (name, in)), split by location, security parameters appended behind them, all body alternatives; "
+        "the generated schema takes the operation-level definition",
+        "merge_asFound_witness / C08_effective_full_false: the tree as found keeps the overridden path-level definition and "
+        "lets it win (F14)",
+        "C08_security: every active apiKey scheme's parameter is defined in its location, every active http scheme adds "
+        "Authorization",
+        "C08_total / C08_total_each: with TypeError handled, the labels of what get_all_operations yields are exactly the "
+        "documented operations, errors name their path; total_asFound_witness / C08_total_full_false (FC08a)",
+        "C08_lookup_refines / C08_lookup_by_path_method / C08_lookup_by_id / C08_lookup_by_reference / "
+        "C08_abstract_map_is_iteration: in every state reachable by any access sequence each look-up answers what "
+        "iteration offers for that (path, method), independent of the history (scope repaired); C08_same_instance: one "
+        "instance per operation for every access order",
+        "lookup_scope_asFound_witness(_error) / C08_lookup_refines_full_false (F15), "
+        "lookup_by_reference_referenced_item_witness (F15b), suspend_asFound_witness (F15c), populate_asFound_witness (FC08b)",
+        "C08_scope_balanced / C08_scope_root: the scope stack is unchanged by every completed operation; with the repaired "
+        "generator it is the root scope alone in every reachable state",
+    ]
+    chk.partial += [
+        "C08_total_partial: as found, nothing is dropped whenever the generator runs to completion (the escaping TypeError "
+        "is the only way to lose an operation)",
+        "look-up theorems assume unique operationIds / unique dictionary keys / a completely populated operationId table "
+        "(wfDoc, uniqueIds, populateOk; evaluated by the driver on every generated document, see input_distribution) and, "
+        "for the code as found, cover all orders of complete iterations and look-ups but not look-ups between two next() "
+        "calls (F15c) nor path items behind $ref (F15)",
+        "get_operation_by_reference is proved for path items written in place only (F15b is not repaired)",
+        "resolve_all is modelled at the level of `parameters` entries (reference chains, depth limit, scopes per hop); "
+        "inlining below a parameter is compared with an independent resolver only",
+    ]
     chk.sampled_only += ["JSON-vs-YAML equality of loaded documents and offered operations (differential run with PyYAML "
                          "and the repo's loader; not modelled in Lean)",
                          "inlining of references nested inside a parameter's schema (resolve_all below the parameter "
@@ -717,17 +774,17 @@ def run(chk):
         for name, (doc, runs) in WITNESS_RUNS.items():
             check_documents(chk, td, [copy.deepcopy(doc)], f"witness:{name}", 0, variants, fixed_runs=[runs])
         # 2. small documents, all access sequences up to length 2 (+ random longer ones, + suspended interleavings)
-        n_small = chk.budget(40, 300)
+        n_small = chk.budget(40, 250)
         docs = [G.Gen(rng, multi=False).doc(npaths=rng.choice([1, 2])) for _ in range(n_small)]
         check_documents(chk, td, docs, "single-file:small-exhaustive", chk.budget(6, 20), variants, small=True)
         # 3. larger well-formed and malformed single-file documents
-        n = chk.budget(60, 600)
+        n = chk.budget(60, 500)
         docs = [G.Gen(rng, multi=False, malformed=0.0 if i % 2 else 0.25).doc() for i in range(n)]
-        check_documents(chk, td, docs, "single-file:random", chk.budget(10, 30), variants)
+        check_documents(chk, td, docs, "single-file:random", chk.budget(10, 40), variants)
         # 4. multi-file layouts (JSON and YAML files, relative references, decoy file)
-        n = chk.budget(50, 500)
+        n = chk.budget(50, 450)
         docs = [G.Gen(rng, multi=True, malformed=0.0 if i % 3 else 0.2, yaml=bool(i % 2)).doc() for i in range(n)]
-        check_documents(chk, td, docs, "multi-file:random", chk.budget(10, 30), variants)
+        check_documents(chk, td, docs, "multi-file:random", chk.budget(10, 40), variants)
         # 5. JSON vs YAML
         yaml_json(chk, td, chk.budget(150, 1500))
     chk.exhaustive = False
